@@ -12,7 +12,7 @@ From Coq Require Import List ZArith NArith Bool.
 From BBS Require Import Common.Sx Buffer.Source Buffer.Validate Buffer.Convert Buffer.ErrHandler
   Buffer.StreamProofs Buffer.ValidateProofs Buffer.ErrHandlerProofs Buffer.ClosedOnceProofs
   Buffer.ErrHandlerStackProofs Buffer.StackRuleProofs Buffer.ValidateReaderProofs Buffer.ConvertProofs
-  Buffer.EHFullCarry Buffer.EHFullReader Buffer.EHFullMethods Buffer.EHFullStack Buffer.EHFullPrefix Buffer.EHFullMon Run.R09 Run.R16 Run.R16Proofs.
+  Buffer.EHFullCarry Buffer.EHFullReader Buffer.EHFullMethods Buffer.EHFullStack Buffer.EHFullPrefix Buffer.EHFullExact Buffer.EHFullMon Run.R09 Run.R16 Run.R16Proofs.
 Import ListNotations.
 Open Scope N_scope.
 
@@ -130,6 +130,49 @@ Theorem still_validated_reader : forall H cfg fuel b h out st',
   exists offered, rstitched fuel (urd_open fuel b 0) 0 (h_answers h) out EEof offered.
 Proof. exact ehr_validated_stitched. Qed.
 Print Assumptions still_validated_reader.
+
+(** * The stitched stream in closed form: the monitor's specification function.
+    For well-formed buffers ([wf_buf]: a reader that attaches EOF to data has a
+    script of chunks and at most one final Eof event — the scripts the harness
+    generates) and as long as no underlying reader runs out of fuel, what one
+    buffer delivers from offset k is exactly [piece_of b k] and the stitched
+    stream is exactly [stitch b k answers] (Run/R16.v, the function the monitor
+    evaluates on implementation observations) — on the chunk-reader path and on
+    the io.Reader path, for every buffer kind. *)
+Theorem stitched_stream_is_the_specification : forall ifuel max cur k ans out e offered,
+  stitched ifuel max cur k ans out e offered ->
+  forall b, cur = ucr_open ifuel b k -> wf_buf b -> Forall wf_ans ans ->
+  ~ In EFuel offered -> stitch b k ans = (out, e, offered).
+Proof. exact stitched_is_stitch. Qed.
+Print Assumptions stitched_stream_is_the_specification.
+
+Theorem stitched_reader_stream_is_the_specification : forall fuel cur k ans out e offered,
+  rstitched fuel cur k ans out e offered ->
+  forall b, cur = urd_open fuel b k -> wf_buf b -> Forall wf_ans ans ->
+  ~ In EFuel offered -> stitch b k ans = (out, e, offered).
+Proof. exact rstitched_is_stitch. Qed.
+Print Assumptions stitched_reader_stream_is_the_specification.
+
+(** ... so the streams of both error-handling readers, read to their end, are
+    [stitch] of the buffer and the handler's script, and the handler's log is
+    the list of errors [stitch] says are offered. *)
+Theorem error_handling_chunk_reader_stream : forall ifuel fuel max b h out e r',
+  drains (ehc_read ifuel fuel max) (ehc_init ifuel b h) out e r' ->
+  wf_buf b -> Forall wf_ans (h_answers h) ->
+  e <> EFuel -> ~ In (HOnError EFuel) (h_log (ec_h r')) ->
+  exists offered, stitch b 0 (h_answers h) = (out, e, offered) /\
+                  h_log (ec_h r') = h_log h ++ map HOnError offered.
+Proof. exact ehc_stream_is_stitch. Qed.
+Print Assumptions error_handling_chunk_reader_stream.
+
+Theorem error_handling_reader_stream : forall fuel b h out e r',
+  rdrains (ehr_read fuel) (ehr_init fuel b h) out e r' ->
+  wf_buf b -> Forall wf_ans (h_answers h) ->
+  ~ In (HOnError EFuel) (h_log (er_h r')) ->
+  exists offered, stitch b 0 (h_answers h) = (out, e, offered) /\
+                  h_log (er_h r') = h_log h ++ map HOnError offered.
+Proof. exact ehr_stream_is_stitch. Qed.
+Print Assumptions error_handling_reader_stream.
 
 (** * Every consumption method.  If the buffer handed to WithErrorHandler and
     every replacement buffer the handler supplies carry the object [C], then a
